@@ -270,6 +270,7 @@ Expressible(m) ==
     [] t = "FifoRsp" -> Len(m.regs) <= 31
     [] t = "DiagReq" -> Len(m.data) >= 1 /\ (m.sub = 0 \/ Len(m.data) = 1)
     [] t = "DiagRsp" -> Len(m.data) >= 1 /\ (m.sub \in {0, 21} \/ Len(m.data) = 1)
-    [] t = "DevIdRsp" -> Len(m.objs) <= 255
+    [] t = "DevIdRsp" -> /\ Len(m.objs) <= 255          \* one PDU holds at most 253 bytes: what does not fit is paged (Mei.tla, C20)
+                         /\ 7 + SumSeq([i \in 1..Len(m.objs) |-> 2 + Len(m.objs[i].val)]) <= 253
     [] OTHER -> TRUE
 =============================================================================
